@@ -466,6 +466,20 @@ pub fn run(tier: Tier) -> i32 {
         rep.add_sweep("many-half-open", sizes.len() as u64, sizes.len() as u64, sizes.len() as u64, vec![format!("{:?} half-open sessions (valid tokens, 10 s to live): the first and the last admitted one still complete, all vanish at token expiry, an honest client connects afterwards ({} library calls)", sizes, steps)]);
         rep.transitions += steps;
     }
+    // fail-over between two different servers
+    {
+        let cases = failover_cases();
+        let res = crate::explore::par_cases(cases.len(), |i| failover_case(cases[i].0, cases[i].1, cases[i].2));
+        let mut steps = 0u64;
+        for (i, r) in res.into_iter().enumerate() {
+            match r {
+                Ok(n) => steps += n,
+                Err(v) => rep.violation("fail-over-between-servers", v, J::obj().set("kind", J::s("failover")).set("case", J::i(i as u64))),
+            }
+        }
+        rep.add_sweep("fail-over-between-servers", cases.len() as u64, cases.len() as u64, 3, vec![format!("{} cases: two servers with their own challenge keys, the first listed one silent from the start / after its challenge / after its challenge and a lost response, x (time-out, tick length); the client completes a full handshake with the second ({} library calls)", cases.len(), steps)]);
+        rep.transitions += steps;
+    }
     // recovery class: a client returns from an address whose earlier session ended and whose slot was re-used
     {
         let cases = return_cases();
@@ -593,6 +607,78 @@ pub fn pending_scale_case(n: usize) -> Result<u64, Violation> {
         return Err(bad("room-but-not-connected", "an honest client with a fresh token cannot connect after the half-open sessions expired".to_string()));
     }
     Ok(steps + 6)
+}
+
+/// Fail-over between two *different* servers (own challenge keys): server A, listed first, goes silent at `stage`
+/// (0 = never answers, 1 = after its challenge, 2 = after its challenge and one lost response); the client must move
+/// to server B after the token time-out and complete a full handshake there.
+pub fn failover_case(stage: usize, timeout_s: i32, dt_ms: u64) -> Result<u64, Violation> {
+    use crate::nc::{self, client_addr, make_token, new_client, new_server, server_addr, TokenSpec};
+    use std::time::Duration;
+    let (a_addr, b_addr) = (server_addr(0), server_addr(1));
+    let mut a = new_server(4, vec![a_addr], Duration::ZERO);
+    let mut b = new_server(4, vec![b_addr], Duration::ZERO);
+    let mut sp = TokenSpec::new(9, 9, vec![a_addr, b_addr]);
+    sp.timeout = timeout_s;
+    sp.expire = 600;
+    let tok = make_token(&sp);
+    let mut c = new_client(Duration::ZERO, &tok);
+    let bad = |sig: &str, msg: String| Violation::new(format!("C18/fail-over-between-servers/{}", sig), format!("first server silent {}, time-out {} s, ticks of {} ms: {}", ["from the start", "after its challenge", "after its challenge and a lost response"][stage], timeout_s, dt_ms, msg));
+    let dt = Duration::from_millis(dt_ms);
+    let me = client_addr(1);
+    let mut calls = 0u64;
+    let mut a_answers = if stage == 0 { 0 } else { 1 };
+    let budget_ticks = ((timeout_s as u64 * 1000) / dt_ms + 1) * 2 + 40;
+    let mut switched_at: Option<u64> = None;
+    for tick in 0..budget_ticks {
+        a.update(dt);
+        b.update(dt);
+        let out = nc::cli_update(&mut c, dt)?;
+        calls += 3;
+        if c.is_disconnected() {
+            return Err(bad("client-gave-up", format!("tick {}: the client is disconnected ({:?}) although the second listed server answers", tick, c.disconnect_reason())));
+        }
+        if let Some((p, to)) = out {
+            if to == a_addr {
+                if a_answers > 0 {
+                    a_answers -= 1;
+                    let r = nc::srv_process(&mut a, me, &p)?;
+                    if let Some((_, bytes)) = r.reply() {
+                        nc::cli_process(&mut c, bytes)?;
+                    }
+                    calls += 2;
+                }
+            } else if to == b_addr {
+                switched_at.get_or_insert(tick);
+                let r = nc::srv_process(&mut b, me, &p)?;
+                if let Some((_, bytes)) = r.reply() {
+                    nc::cli_process(&mut c, bytes)?;
+                }
+                calls += 2;
+            } else {
+                return Err(bad("datagram-to-unlisted-address", format!("tick {}: the client addressed {}", tick, to)));
+            }
+        }
+        if c.is_connected() && b.is_client_connected(9) {
+            return Ok(calls);
+        }
+        if let Some(t0) = switched_at {
+            if (tick - t0) * dt_ms > 4 * dt_ms.max(250) + 1000 {
+                return Err(bad("handshake-did-not-complete", format!("the client turned to the second server at tick {} and is still not connected there at tick {} (client connected: {}, server B has it: {})", t0, tick, c.is_connected(), b.is_client_connected(9))));
+            }
+        }
+    }
+    Err(bad("handshake-did-not-complete", format!("{} ticks: the client never got connected to the second server (switched at {:?})", budget_ticks, switched_at)))
+}
+
+pub fn failover_cases() -> Vec<(usize, i32, u64)> {
+    let mut v = vec![];
+    for stage in 0..3 {
+        for (t, dt) in [(1i32, 100u64), (2, 250), (2, 400), (5, 250)] {
+            v.push((stage, t, dt));
+        }
+    }
+    v
 }
 
 /// Recovery class: client X (address A) connects and its session ends in one of three ways; another client Y takes the
@@ -735,6 +821,22 @@ pub fn replay(j: &J) -> i32 {
         let n = j.get("n").and_then(|x| x.as_i()).unwrap_or(4096) as usize;
         println!("{} half-open sessions on a 4-slot server", n);
         return match pending_scale_case(n) {
+            Err(v) => {
+                println!("RESULT: violation {} — {}", v.signature, v.message);
+                1
+            }
+            Ok(_) => {
+                println!("RESULT: no violation");
+                0
+            }
+        };
+    }
+    if j.get("kind").and_then(|k| k.as_str()) == Some("failover") {
+        let cases = failover_cases();
+        let i = j.get("case").and_then(|x| x.as_i()).unwrap_or(0) as usize;
+        let Some(c) = cases.get(i) else { return 2 };
+        println!("fail-over case {:?}", c);
+        return match failover_case(c.0, c.1, c.2) {
             Err(v) => {
                 println!("RESULT: violation {} — {}", v.signature, v.message);
                 1
